@@ -1,7 +1,7 @@
 """C13 - every block token reports the source line on which it starts (reference-model monitor: the generator knows the line)."""
 import random
 
-from .. import gen, mt
+from .. import gen, mt, workloads
 from ..htmlnorm import normalize
 
 ID = 'C13'
@@ -58,7 +58,7 @@ def check_doc(ctx, doc, case):
     if ctx.case_index % 4 == 0 and text.endswith('\n') and not text.endswith('\n\n'):
         text = text[:-1]
     try:
-        d = mt.parse(text if ctx.case_index % 8 else text.splitlines(keepends=True), 'Html')     # str or list of lines
+        d = mt.parse(text if ctx.case_index % 8 else workloads.lines_of(text), 'Html')     # str or list of lines
     except Exception as e:  # noqa
         ctx.count('ambient', 'C01:' + mt.exc_site(e))
         return
@@ -113,7 +113,7 @@ def plan(tier):
     return {'shards': 16, 'budget_s': 900}
 
 
-SIZES = {'quick': dict(docs=8000), 'thorough': dict(docs=80000)}
+SIZES = {'quick': dict(docs=8000), 'thorough': dict(docs=600000)}
 
 
 def run(ctx):
